@@ -233,6 +233,7 @@ pub fn run(tier: Tier) -> i32 {
             );
         }
     }
+    join_condition_part(&mut run);
     run.states = cases.len() as u64;
     run.transitions = st.points;
     run.set("bounds", json!({"partition": ["none","a"], "sort": ["none","b","-b","{a,-b}"], "frames": frames().iter().map(|f| format!("{f:?}")).collect::<Vec<_>>(),
@@ -240,4 +241,81 @@ pub fn run(tier: Tier) -> i32 {
     run.set("rule", json!("states = distinct window programs; validated = (program, instance, target) triples executed on SQLite and compared (multiset, or admissible order) with the reference window evaluation; positional functions / rows frames are decided only where the order is total in every partition"));
     run.assume("SQLite window functions are trusted; range frames decided only for a single non-null numeric key");
     run.finish()
+}
+
+
+/// A windowed value used in a join condition, against the same value derived one step earlier and referred to by
+/// name (that form is what the main exploration — placement Derive — and C01's joins decide). Product: 5 frame-less
+/// aggregation functions x 2 preceding sorts x 4 right-hand relations x 2 join sides; both forms are executed on
+/// the instance pool and must return the same rows.
+fn join_condition_part(run: &mut Run) {
+    use crate::model::{row_cmp, row_eq};
+    use crate::relcheck::{dname, opts, EXEC_DIALECTS};
+    let fns = ["sum t.b", "count t.b", "max t.b", "min t.b", "average t.b"];
+    let sorts = ["", "sort {t.b} | "];
+    let rights: [(&str, &str); 4] = [("", "r=(from u | select {a, d})"), ("", "r=u"), ("let q = (from u | select {a, d})\n", "r=q"), ("", "r=(from u | select {a, d} | filter d > 0)")];
+    let sides = ["", "side:left "];
+    let pool = crate::inst::pool();
+    let db = Db::new();
+    let mut reported = std::collections::BTreeSet::new();
+    for f in fns {
+        for srt in sorts {
+            for (defs, right) in rights {
+                for side in sides {
+                    let in_cond = format!("{defs}from t | select {{a, b}} | {srt}join {side}{right} (t.a == r.a && ({f}) > 1) | select {{t.a, t.b, r.d}}");
+                    let by_name = format!("{defs}from t | select {{a, b}} | {srt}derive {{w = {f}}} | join {side}{right} (t.a == r.a && w > 1) | select {{t.a, t.b, r.d}}");
+                    for d in EXEC_DIALECTS.iter() {
+                        run.count("join_condition:cases", 1);
+                        let compile = |s: &str| match crate::iso::guard(|| prqlc::compile(s, &opts(*d))) {
+                            Ok(Ok(sql)) => Ok(sql),
+                            Ok(Err(e)) => Err(crate::relcheck::err_text(&e)),
+                            Err(p) => Err(format!("panic at {}", p.site)),
+                        };
+                        let Ok(bsql) = compile(&by_name) else {
+                            run.count("join_condition:named_form_not_compiled", 1);
+                            continue;
+                        };
+                        let csql = match compile(&in_cond) {
+                            Ok(s) => s,
+                            Err(e) => {
+                                if reported.insert(("rejected".to_string(), right.to_string())) {
+                                    run.violate(Some("window-in-join-condition-rejected".into()), format!("[{}] {} is rejected ({e}); with the value derived first it compiles", dname(*d), in_cond.replace('\n', " | ")), json!({"driver":"join-condition","prql": in_cond, "by_name": by_name, "dialect": dname(*d)}));
+                                }
+                                continue;
+                            }
+                        };
+                        for inst in pool.iter() {
+                            db.load(inst);
+                            let (a, b) = (db.query(&csql), db.query(&bsql));
+                            run.validated += 1;
+                            let same = match (&a, &b) {
+                                (Ok((_, r1)), Ok((_, r2))) => {
+                                    let (mut r1, mut r2) = (r1.clone(), r2.clone());
+                                    r1.sort_by(|x, y| row_cmp(x, y));
+                                    r2.sort_by(|x, y| row_cmp(x, y));
+                                    r1.len() == r2.len() && r1.iter().zip(&r2).all(|(x, y)| row_eq(x, y))
+                                }
+                                (Err(_), Err(_)) => true,
+                                _ => false,
+                            };
+                            if !same {
+                                if reported.insert((f.to_string(), right.to_string())) {
+                                    let show = |r: &Result<(Vec<String>, Vec<Vec<crate::model::V>>), String>| match r {
+                                        Ok((_, rows)) => crate::relcheck::show_rows(rows),
+                                        Err(e) => format!("engine: {e}"),
+                                    };
+                                    run.violate(
+                                        Some(format!("window-in-join-condition-differs-from-derived-value:{}", if right.contains("(from") { "inline-pipeline" } else { "named-relation" })),
+                                        format!("[{}] {} returns {}; with the value derived first: {} (on {})", dname(*d), in_cond.replace('\n', " | "), show(&a), show(&b), inst.show()),
+                                        json!({"driver":"join-condition","prql": in_cond, "by_name": by_name, "dialect": dname(*d), "sql": csql, "sql_by_name": bsql, "instance": inst.show()}),
+                                    );
+                                }
+                                break;
+                            }
+                        }
+                    }
+                }
+            }
+        }
+    }
 }
